@@ -6,6 +6,19 @@ try:
 except ImportError:
     subprocess.check_call([sys.executable, '-m', 'pip', 'install', '--no-index', '--find-links',
                            '/opt/veriftools/wheels', 'hypothesis'])
+# optional: atheris for the thorough byte-level campaign of C20 (the check works without it)
+import os
+deps = '/verif/.deps'
+try:
+    sys.path.insert(0, deps)
+    import atheris  # noqa
+except Exception:
+    try:
+        subprocess.call([sys.executable, '-m', 'pip', 'install', '-q', '--no-index', '--find-links',
+                         '/opt/veriftools/wheels', '--target', deps, 'atheris'],
+                        stdout=subprocess.DEVNULL, stderr=subprocess.DEVNULL)
+    except Exception:
+        pass
 sys.path.insert(0, '/verif')
 from wnv import env
 wn = env.import_wn()
